@@ -76,12 +76,26 @@ def factR (A : AOps R) : Nat → R
 def fallR (A : AOps R) (n k : Nat) : R :=
   A.toOps.prodN k fun i => A.ofRat ((n - i : Nat) : Rat)
 
-/-- sum / product / log-sum-exp of `len` entries -/
+/-- a maximal entry among `f 0 .. f (len-1)` where the order is decidable (`A.le`), else `0`; only
+    used as the shift of the stable log-sum-exp / softmax below, which do not depend on its value
+    mathematically (`C01.lse_shift`) but do in floating point -/
+def shiftOf (A : AOps R) (len : Nat) (f : Nat → R) : R := Id.run do
+  if len = 0 then return A.zero
+  let mut m := f 0
+  for a in [1:len] do
+    match A.le m (f a) with
+    | some true => m := f a
+    | some false => pure ()
+    | none => return A.zero
+  return m
+
+/-- log-sum-exp of `len` entries, shifted by a maximal entry: `m + log Σ exp (f a - m)` -/
 def lse (A : AOps R) (len : Nat) (f : Nat → R) : Option R := do
+  let m := shiftOf A len f
   let mut acc := A.zero
   for a in [0:len] do
-    acc := A.add acc (← A.exp (f a))
-  A.log acc
+    acc := A.add acc (← A.exp (A.sub (f a) m))
+  pure (A.add m (← A.log acc))
 
 /-- Apply one operator to evaluated arguments. `none` = the value domain cannot carry this
     operator exactly (e.g. `exp` over `Rat`) or the arguments are ill-shaped. -/
@@ -141,12 +155,11 @@ def applyOp (A : AOps R) (op : POp) (args : List (Tensor R)) : Option (Tensor R)
       some { shape := outShape, data := data }
   | .softmax ax, [t] => do
       let (_, len, inner) := Tensor.split3 t.shape ax
-      let e ← t.data.mapM A.exp
-      let te : Tensor R := { t with data := e }
+      -- softmax = exp (x - lse x), with the shifted log-sum-exp (no overflow in floating point)
       let data ← (Array.range (shapeSize outShape)).mapM fun n => do
         let o := n / (len * inner); let i := n % inner
-        let tot := A.toOps.sumN len fun a => te.get3 ax o a i z
-        pure (A.mul (e.getD n z) (← A.inv tot))
+        let l ← lse A len fun a => t.get3 ax o a i z
+        A.exp (A.sub (t.data.getD n z) l)
       some { shape := outShape, data := data }
   | .logSoftmax ax, [t] => do
       let (_, len, inner) := Tensor.split3 t.shape ax
